@@ -699,6 +699,14 @@ static void err_render(void) {
 	if (KSI_ERR_toString(ctx, b, 600) != NULL) { if (memchr(b, 0, 600) == NULL) fail("tostring-unterminated", "KSI_ERR_toString"); else g_sink += strlen(b); }
 	free(b);
 	KSI_ERR_getBaseErrorMessage(ctx, msg, sizeof msg, NULL, &ext);
+	/* the same trace through the logger (at the lowest and at the debug level) and as a dump to a stream */
+	CALL(); NOTE(KSI_LOG_logCtxError(ctx, KSI_LOG_ERROR));
+	CALL(); NOTE(KSI_LOG_logCtxError(ctx, KSI_LOG_DEBUG));
+	{
+		static FILE *devnull;
+		if (!devnull) devnull = fopen("/dev/null", "w");
+		if (devnull) { CALL(); NOTE(KSI_ERR_statusDump(ctx, devnull)); }
+	}
 }
 
 static long g_exact_leaked;
